@@ -137,6 +137,23 @@ RECURSION = {
     "eval-indirect": "var e = eval; function f(){ return e('f()') } f()",
     "in-catch": "function f(){ try { throw 1 } catch(e) { return f() } } f()",
     "in-finally": "function f(){ try { } finally { return f() } } f()",
+    # the stop is not the script's to catch: every level tries to swallow it (try/catch, a finally that returns), in plain
+    # calls and inside code run by built-ins
+    "swallow-plain": "function f(){ try { f() } catch (e) { } return 1 } f()",
+    "swallow-finally-return": "function f(){ try { f() } finally { return 1 } } f()",
+    "swallow-callback": "function f(){ try { [1].forEach(f) } catch (e) { } return 1 } [1].forEach(f)",
+    "swallow-map-sort": "function f(){ try { [2, 1].sort(function(){ return [1].map(f).length }) } catch (e) { } return 1 } f()",
+    "swallow-getter": "var o={get x(){ try { return o.x } catch (e) { return 0 } }}; o.x",
+    "swallow-getter-values": "var o={get x(){ try { return Object.values(o) } catch (e) { return 0 } }}; o.x",
+    "swallow-eval": "function f(){ try { eval('f()') } catch (e) { } return 1 } f()",
+    "swallow-Function": "function f(){ try { new Function('return f()')() } catch (e) { } return 1 } f()",
+    "swallow-toString": "var o={toString:function(){ try { return '' + o } catch (e) { return '' } }}; '' + o",
+    "swallow-valueOf": "var o={valueOf:function(){ try { return o * 1 } catch (e) { return 0 } }}; o * 1",
+    "swallow-toJSON": "var o={toJSON:function(){ try { return JSON.stringify(o) } catch (e) { return 0 } }}; JSON.stringify(o)",
+    "swallow-replace": "function f(){ try { return 'a'.replace(/a/, f) } catch (e) { return '' } } f()",
+    "swallow-call-apply": "function f(){ try { f.call(null); f.apply(null, []) } catch (e) { } return 1 } f()",
+    "swallow-constructor": "function F(){ try { new F() } catch (e) { } } new F()",
+    "swallow-setter-assign": "var o={set x(v){ try { Object.assign(o, {x: 1}) } catch (e) { } }}; o.x = 1",
 }
 
 
